@@ -225,7 +225,8 @@ CHECKS = {
             {"pkg": "v2", "entries": ["VerifC04Precision"], "params": {"N": 1}, "extra": ["-solver", "cvc5"]},
         ],
         "thorough": [
-            {"pkg": "v2", "entries": ["VerifC04Pair"], "params": {"N": 2}},
+            {"pkg": "v2", "entries": ["VerifC04Pair"], "params": {"N": 1}},
+            {"pkg": "v2", "entries": ["VerifC04Pair"], "params": {"N": 2, "KINDS": 5}},
             {"pkg": "v2", "entries": ["VerifC04Precision"], "params": {"N": 2}, "extra": ["-solver", "cvc5"]},
             {"pkg": "v2", "entries": ["VerifC04Pair"], "params": {"N": 1, "RICH": 1}},
         ],
